@@ -8,7 +8,12 @@
   (5) the same beyond every size threshold: the product K·L of one bin, K alone, L alone and the record length N alone are taken across every
       integer constant of the CURRENT core.py / analysis.py (vk.common.mined_sizes) and across 2^16, 2^20, 70 001, 1 100 003 (c-1, c, c+1, c+17,
       2c+3), on the NumPy AND the Numba backend (and their agreement), orders -1 … 2, g in {-2.5, 0.3}, d in {1, 5}: single bins with an explicit
-      L and the overlap that gives the wanted K, and band-limited `compute_spectrum` on a record of ~600 000 samples (`size_stream`).
+      L and the overlap that gives the wanted K, and band-limited `compute_spectrum` on a record of ~600 000 samples (`size_stream`);
+  (6) the transfer function is estimated BIN BY BIN — the spectrum elsewhere must not matter: records with a huge spectral dynamic range (a line
+      2^10 … 2^40 times the floor rms on / off a plan bin, f^(+-6) shaped noise with > 200 dB between the band ends, a DC level 2^10 … 2^40 times the
+      floor) with y = g x (g = -2, 0.25: exact check relative to the bin's OWN magnitude; g = -2.5, 0.3: the rounding budget) and y = x delayed by
+      1 / 3 samples, compute() / compute_spectrum, four schedulers, both backends, orders -1 … 2; every bin of every result (all streams):
+      Hxy = conj(XY)/XX where XX != 0; bins of the multi-bin result against `compute_single_bin(f_i, L=L_i)` of the same record (`hdr_stream`).
 """
 from __future__ import annotations
 
@@ -67,7 +72,11 @@ RULE = ("cases = (mode gain|delay|single|edge|corpus|size, scheduler, detrend or
         "size stream: (axis P=K*L|K|L|N|plan, size, below?, order, gain|delay, backend, K, L of the evaluated bin) — on every run all 4 orders x "
         "{gain, delay} x {numpy, numba} with K*L just beyond each of the (up to four) largest thresholds >= 2^15, K / L / N = 70 001.. for every order, "
         "one band-limited plan on ~600 000 samples, then thresholds x offsets x axes rotated by the seed within a time share (12 s quick, 60 s when an "
-        "obligation broke, 150 s thorough; bins up to 2.3e6 gathered samples quick, 9.5e6 otherwise); CUDA simulator not run at these sizes")
+        "obligation broke, 150 s thorough; bins up to 2.3e6 gathered samples quick, 9.5e6 otherwise); CUDA simulator not run at these sizes; "
+        "hdr stream: (scheduler x order by rotation, record line-on|line-off|slope+6|slope-6|dc, level 2^10..2^40, g in {-2, 0.25, -2.5, 0.3} | d in {1, 3}, "
+        "compute|compute_spectrum, backend), 16 gain + 8 delay cases per run (x4 when an obligation broke), non-trivial = a bin whose XX is more than "
+        "2^-52 below the largest XX of the same result (dyn) and whose Hxy is decided by the exact / ratio predicate; plus up to 3 bins per result "
+        "re-analysed with compute_single_bin(f_i, L=L_i)")
 
 U = 2.0 ** -53
 NAMES = ["Hxy", "Hyx", "tf", "coh", "cf", "cf_rad", "cf_deg", "Gxy"]
@@ -265,6 +274,45 @@ def make_spec(mode: str, idx: int, case_seed: int) -> Dict[str, Any]:
     return s
 
 
+# (6) records with a huge spectral dynamic range: a unit white floor plus something 2^10 … 2^40 times larger somewhere else in the spectrum
+HDR_KINDS = ["line-on", "line-off", "slope+6", "slope-6", "dc"]
+HDR_P = [30, 40, 20, 10]
+HDR_G = [-2.0, -2.5, 0.25, 0.3]          # powers of two: y = g·x exactly, sample by sample
+HDR_D = [1, 3]
+
+
+def hdr_record(r: np.random.Generator, n: int, h: Dict[str, Any], fs: float) -> np.ndarray:
+    t = np.arange(n, dtype=np.float64)
+    floor = r.standard_normal(n)
+    kind = h["kind"]
+    if kind in ("line-on", "line-off"):
+        return floor + 2.0 ** h["p"] * np.sin(2 * np.pi * (h["f0"] / fs) * t + float(r.uniform(0, 6)))
+    if kind == "dc":
+        return floor + float(r.choice([-1.0, 1.0])) * 2.0 ** h["p"]
+    if kind in ("slope+6", "slope-6"):
+        # amplitude shaping f^(+-3) of a white spectrum (power f^(+-6)): (n/2)^6 between the band ends, > 200 dB for n >= 6000; weakest end = unit level
+        W = np.fft.rfft(floor)
+        k = np.arange(len(W), dtype=np.float64)
+        sh = np.zeros(len(W))
+        sh[1:] = (k[1:] / k[1]) ** 3 if kind == "slope+6" else (k[1:] / k[-1]) ** -3
+        return np.ascontiguousarray(np.fft.irfft(W * sh, n))
+    raise ValueError(kind)
+
+
+def is_pow2(g: float) -> bool:
+    return g != 0 and math.isfinite(g) and math.frexp(abs(g))[0] == 0.5
+
+
+def exact_tol(K: int) -> float:
+    """y = g·x with g a power of two (no overflow / underflow: |data| in 1e-10 … 1e13 here): every operation of a kernel on channel 2 is the operation
+    on channel 1 scaled by g, so per segment Y_s = g·X_s exactly; then |X_s|² and Re X_s conj(Y_s) are sums of two products of one sign (relative
+    error <= 2u each, with or without fused multiply-add), Im X_s conj(Y_s) = fl(i1·g r1 − r1·g i1) is 0 or, contracted to an FMA, at most
+    u|g||r1 i1| <= u|g||X_s|²/2; the means of K terms of one sign carry a relative error <= K u whatever the summation order, the complex / real
+    division 2u: |Hxy − g| <= (2K + 7)u|g| + O(u²).  Granted: (2K + 16)u|g| — relative to the bin's OWN magnitude, whatever the rest of the
+    spectrum holds.  Returned per unit |g|."""
+    return (2.0 * K + 16.0) * U
+
+
 # the property quantifies over ALL records: the estimate must not depend on the amplitude scale of the data
 AMPS = [1.0, 1.0, 1e-9, 1.0, 1e6, 1e-12, 1.0, 1e-4]
 
@@ -273,6 +321,13 @@ def build_data(s: Dict[str, Any]) -> Tuple[np.ndarray, np.ndarray, Optional[np.n
     """(x, y, xl): the two analysed channels and, for a delay, the longer parent record"""
     r = np.random.default_rng(s["rec_seed"])
     N = s["N"]
+    if "hdr" in s:
+        if "d" in s:
+            d = s["d"]
+            xl = hdr_record(r, N + d, s["hdr"], s["fs"])
+            return np.ascontiguousarray(xl[d:d + N]), np.ascontiguousarray(xl[0:N]), xl
+        x = hdr_record(r, N, s["hdr"], s["fs"])
+        return x, s["g"] * x, None
     if "d" in s:
         d = s["d"]
         xl = _an.record(r, N + d, s["kind"])     # unit scale: the delay bound's statistical term is calibrated for unit-variance records
@@ -326,6 +381,32 @@ def viol(P: C.Part, what: str, sig: Dict[str, Any], s: Dict[str, Any], backend: 
 
 
 # ---------------------------------------------------------------- the predicates
+def check_ratio(P: C.Part, s: Dict[str, Any], res, H: np.ndarray, backend: str, sigb: Dict[str, Any]) -> None:
+    """"consistent with conj(X)·Y / |X|²": at EVERY bin with XX != 0 the reported Hxy is conj(XY)/XX of the SAME result (one complex / real division:
+    2u per component; 8u|XY|/XX granted) — whatever the other bins of the result hold.  Bins whose quotient leaves the normal range are skipped."""
+    with np.errstate(all="ignore"):
+        XX = np.asarray(res.XX, dtype=float)
+        XY = np.asarray(res.XY, dtype=complex)
+        q = np.conj(XY) / np.where(XX != 0, XX, 1.0)
+        aq = np.abs(q)
+        sel = (XX > 1e-290) & np.isfinite(XX) & np.isfinite(aq) & (aq > 1e-290) & (aq < 1e290) & (np.abs(XY) > 1e-290)
+        err = np.abs(np.asarray(H, dtype=complex) - q)
+        bad = sel & ~(err <= 8 * U * aq)
+    n = int(sel.sum())
+    P.cases += n
+    P.hit("ratio.bins", n) if n else None
+    if n and XX.size > 1:
+        mx = float(XX[np.isfinite(XX)].max())
+        nd = int((sel & (XX < 2.0 ** -52 * mx)).sum())
+        if nd:
+            P.hit("ratio.bins-more-than-2^52-below-the-strongest-bin", nd)
+    for j in np.nonzero(bad)[0][:2]:
+        j = int(j)
+        viol(P, f"{backend} {s['o']['scheduler']} order={s['o']['order']}: Hxy[{j}]={complex(H[j])!r} but conj(XY)/XX={complex(q[j])!r} (XX={XX[j]!r}, "
+                f"largest XX of the result {float(XX.max())!r}, f={float(res.f[j])!r}, L={int(res.L[j])})",
+             {**sigb, "sub": "ratio"}, s, backend, {"bin": j, "observed": complex(H[j]), "expected": complex(q[j]), "tol": float(8 * U * aq[j])})
+
+
 def check_gain(P: C.Part, s: Dict[str, Any], res, x: np.ndarray, y: np.ndarray, backend: str, stats: Dict[str, float]) -> None:
     g = s["g"]
     o = s["o"]
@@ -342,6 +423,9 @@ def check_gain(P: C.Part, s: Dict[str, Any], res, x: np.ndarray, y: np.ndarray, 
     sigb = {"mode": s["mode"], "backend": backend, "order": order, "scheduler": o["scheduler"], "win": o["win"]}
     if not (np.array_equal(tf, H) and np.array_equal(Hyx, np.conj(H))):
         viol(P, f"{backend}: tf is not Hxy / Hyx is not conj(Hxy)", {**sigb, "sub": "alias"}, s, backend, {})
+    check_ratio(P, s, res, H, backend, sigb)
+    exact = "hdr" in s and is_pow2(g)
+    XXmax = float(np.max(np.asarray(res.XX, dtype=float))) if len(f) else 0.0
     wcache: Dict[int, np.ndarray] = {}
     for j in range(len(f)):
         L = int(Ls[j])
@@ -369,8 +453,18 @@ def check_gain(P: C.Part, s: Dict[str, Any], res, x: np.ndarray, y: np.ndarray, 
             tXX, tYY, tXY = tXX + ak * a * a, tYY + ak * b * b, tXY + ak * a * b
         fwd = (tXY + abs(g) * tXX + 4 * U * abs(g) * a * a) / XX           # |Hxy' − g| <= (|e_XY| + |g||e_XX|)/XX'
         tolH = max(spec_rel * abs(g), fwd)
+        if exact and XX > 1e-250:
+            # (6) g a power of two: the bound relative to the bin's own magnitude (`exact_tol`), also where the raw-magnitude budget is vacuous
+            tolH = min(tolH, exact_tol(len(D)) * abs(g))
+            P.hit("gain.exact(g=2^k)")
         errH = abs(complex(H[j]) - g)
         decisive = tolH <= 1e-3 * abs(g)
+        if "hdr" in s:
+            if exact:
+                stats["hdr_exact_worst_err/(u|g|)"] = max(stats.get("hdr_exact_worst_err/(u|g|)", 0.0), errH / (U * abs(g)))
+            if decisive and XX < 2.0 ** -52 * XXmax:
+                P.nontrivial.add(("hdr-dyn", s["hdr"]["kind"], o["scheduler"], order, backend, s["mode"], g))
+                P.hit("hdr.gain.decisive-bin-more-than-2^52-below-the-strongest")
         if decisive:
             P.nontrivial.add(("gain", o["scheduler"], order, o["win"], backend, s["idx"] % 5, L))
             stats["gain_worst_rel"] = max(stats.get("gain_worst_rel", 0.0), errH / abs(g))
@@ -405,6 +499,9 @@ def check_gain(P: C.Part, s: Dict[str, Any], res, x: np.ndarray, y: np.ndarray, 
             P.hit("gain.coh-vacuous")
             continue
         rr = 2 * tXY / aXY + tXX / XX + tYY / YY
+        if exact and XX > 1e-250 and YY > 1e-250:
+            # YY = g²·XX·(1 ± (K+2)u), |XY|² = g²·XX²·(1 ± 2(K+3)u) by the argument of `exact_tol`: coh = 1 ± (3K + 8)u + the division; granted 2x
+            rr = min(rr, (6.0 * len(D) + 32.0) * U / 1.2)
         if rr > 0.05:
             P.hit("gain.coh-vacuous")
             continue
@@ -427,6 +524,7 @@ def check_delay(P: C.Part, s: Dict[str, Any], res, x: np.ndarray, y: np.ndarray,
         H, rad, deg, cf = np.asarray(res.Hxy), np.asarray(res.cf_rad), np.asarray(res.cf_deg), np.asarray(res.cf)
     sigb = {"mode": s["mode"], "backend": backend, "order": order, "scheduler": o["scheduler"], "win": o["win"], "d": d}
     white = 1.0 if s["kind"] == "noise" else None
+    check_ratio(P, s, res, H, backend, sigb)
     wcache: Dict[int, np.ndarray] = {}
     for j in range(len(f)):
         L = int(Ls[j])
@@ -568,6 +666,148 @@ def run_spec(P: C.Part, s: Dict[str, Any], backends: List[str], cuda: Optional[C
     check_backends(P, s, results, x, y)
     if "size" in s:
         size_hits(P, s, results)
+    if "hdr" in s and not s["mode"].startswith("single"):
+        check_single_vs_multi(P, s, results, data, x, y, xl, stats)
+
+
+# ---------------------------------------------------------------- (6) huge spectral dynamic range
+# "at every bin": the estimate of one bin is a function of that bin's XX, XY alone — what the record holds elsewhere in the spectrum must not matter
+# (seeded C07i: the zero-denominator guard of Hxy became a floor relative to the STRONGEST bin of the result, so every bin more than ~156 dB below a
+# line / a red end / a DC level reported Hxy = 0, coherence still 1; white and mildly coloured records and every single-bin call were unaffected).
+def hdr_spec(mode: str, i: int, case_seed: int) -> Dict[str, Any]:
+    r = np.random.default_rng([case_seed, 31000 + i])
+    hk = HDR_KINDS[i % 5]
+    order = ORDERS[(i // 4) % 4]
+    win = "hann" if i % 4 == 3 else "kaiser"          # (a 200 dB Kaiser window is what such records are analysed with: the floor bins ARE floor)
+    fs = float([1.0, 100.0, 1000.0, float(r.uniform(0.5, 100.0))][(i // 2) % 4])
+    N = int(r.integers(6000, 8001))
+    o: Dict[str, Any] = {"scheduler": _an.SCHEDS[i % 4], "order": order, "win": win, "olap": [0.5, "default", 0.75, 0.3][int(r.integers(0, 4))],
+                         "Jdes": int(r.integers(16, 31)), "Kdes": int(r.choice([2, 5, 20])), "bmin": float(r.choice([1.0, 2.0])),
+                         "Lmin": int(r.choice([1, 8, 64]))}
+    if win == "kaiser":
+        o["psll"] = [200.0, 200.0, 140.0][(i // 5) % 3]
+    s: Dict[str, Any] = {"mode": mode, "idx": 31000 + i, "case_seed": int(case_seed), "N": N, "kind": "hdr", "fs": fs, "layout": ["2xN", "Nx2"][(i // 3) % 2],
+                         "o": o, "rec_seed": int(r.integers(0, 2 ** 62)), "wrapper": bool(i % 2),
+                         "hdr": {"kind": hk, "p": HDR_P[(i // 5 + i) % 4], "f0": None}}
+    if mode == "gain":
+        s["g"] = HDR_G[(i + i // 4) % 4]
+    else:
+        d = HDR_D[(i + i // 4) % 2]
+        s["d"] = d
+        o["order"] = ORDERS[(i // 2) % 4]            # (8 delay cases per run: all four orders)
+        o["Lmin"] = int(d * [64, 128, 256][i % 3])
+        o["bmin"] = 1.0
+    if hk.startswith("line"):
+        f0 = float(r.uniform(0.05, 0.45)) * fs
+        if hk == "line-on":
+            import logging
+            try:
+                logging.disable(logging.CRITICAL)
+                with warnings.catch_warnings():
+                    warnings.simplefilter("ignore")
+                    fp = np.asarray(_an.analyzer(np.zeros((2, N)), fs, **o).plan()["f"], dtype=float)
+                if len(fp):
+                    f0 = float(fp[int(r.integers(len(fp) // 3, len(fp)))])
+            except (Exception, SystemExit):
+                pass
+            finally:
+                logging.disable(logging.NOTSET)
+        s["hdr"]["f0"] = f0
+    return s
+
+
+def check_single_vs_multi(P: C.Part, s: Dict[str, Any], results: Dict[str, Any], data: np.ndarray, x: np.ndarray, y: np.ndarray,
+                          xl: Optional[np.ndarray], stats: Dict[str, float]) -> None:
+    """bins of the multi-bin result (the weakest, the strongest, one more) re-analysed ALONE with compute_single_bin(f_i, L=L_i) on the same record:
+    the single-bin result satisfies (1)/(2) by the same predicates, and its Hxy is that of bin i — for g = 2^k within the two exact bounds; otherwise,
+    when the two results use the same segments, within the two rounding budgets (both are roundings of the same XX, XY)"""
+    o = s["o"]
+    for be, res in results.items():
+        if be == "cuda" or len(res.f) < 2:
+            continue
+        XXa = np.asarray(res.XX, dtype=float)
+        pos = np.nonzero(XXa > 0)[0]
+        if len(pos) == 0:
+            continue
+        pick = [int(pos[np.argmin(XXa[pos])]), int(pos[np.argmax(XXa[pos])]), int(pos[(s["rec_seed"] // 7) % len(pos)])]
+        with warnings.catch_warnings(), np.errstate(all="ignore"):
+            warnings.simplefilter("ignore")
+            Hm = np.asarray(res.Hxy)
+        for j in dict.fromkeys(pick):
+            L = int(res.L[j])
+            s1 = dict(s, mode="single-delay" if "d" in s else "single-gain", freq=float(res.f[j]), L=L, via="L",
+                      o={k: v for k, v in o.items() if k != "band"})
+            try:
+                r1 = run_impl(s1, data, be, None)
+            except Exception as ex:
+                viol(P, f"{be}: compute_single_bin(f={float(res.f[j])!r}, L={L}) raised {ex!r} on the record of a multi-bin result",
+                     {"mode": "hdr-single", "backend": be, "sub": "raises"}, s, be, {"bin": j, "error": repr(ex)})
+                continue
+            if len(r1.f) != 1 or int(r1.L[0]) != L:
+                P.hit("hdr.single.L-differs(skipped)")
+                continue
+            P.hit("hdr.single.bin")
+            if "d" in s:
+                check_delay(P, s1, r1, x, y, xl, be, stats)
+            else:
+                check_gain(P, s1, r1, x, y, be, stats)
+            with warnings.catch_warnings(), np.errstate(all="ignore"):
+                warnings.simplefilter("ignore")
+                H1 = complex(np.asarray(r1.Hxy)[0])
+            hm = complex(Hm[j])
+            XX1, XXm = float(r1.XX[0]), float(XXa[j])
+            if not (XX1 > 1e-250 and XXm > 1e-250 and np.isfinite(H1.real) and np.isfinite(H1.imag) and np.isfinite(hm.real) and np.isfinite(hm.imag)):
+                continue
+            P.cases += 1
+            same_D = np.array_equal(np.asarray(r1.D[0]), np.asarray(res.D[j]))
+            if "g" in s and is_pow2(s["g"]):
+                tol = (exact_tol(len(r1.D[0])) + exact_tol(len(res.D[j]))) * abs(s["g"])
+                P.hit("hdr.single.exact")
+            elif same_D:
+                w = _an.window(o["win"], L, o.get("psll"))
+                omega = 2 * np.pi * float(res.f[j]) / s["fs"]
+                a, b = seg_amp(x, res.D[j], L, w, o["order"]), seg_amp(y, res.D[j], L, w, o["order"])
+                tXX, _, tXY, _ = _an.bin_tol(L, omega, a, b, o["order"])
+                if min(XX1, XXm) <= 4 * tXX or float(r1.f[0]) != float(res.f[j]):
+                    P.hit("hdr.single.vacuous(XX at rounding level)")
+                    continue
+                # same f, L, segments: both are roundings of the same H = conj(XY)/XX;  |H' − H| <= (|e_XY| + |H'||e_XX|)/XX,  XX >= XX' − tXX >= 3XX'/4
+                tol = (4.0 / 3.0) * ((tXY + abs(hm) * tXX) / XXm + (tXY + abs(H1) * tXX) / XX1) + 8 * U * (abs(hm) + abs(H1))
+                P.hit("hdr.single.same-segments")
+            else:
+                P.hit("hdr.single.other-segments(not compared)")
+                continue
+            if tol <= 1e-3 * max(abs(H1), abs(hm)):
+                P.nontrivial.add(("hdr-single", s["hdr"]["kind"], o["scheduler"], o["order"], be, s["mode"]))
+            if not abs(H1 - hm) <= tol:
+                viol(P, f"{be} {o['scheduler']} order={o['order']}: bin {j} (f={float(res.f[j])!r}, L={L}) of the multi-bin result has Hxy={hm!r} but the same "
+                        f"record analysed with compute_single_bin(f, L={L}) gives {H1!r} (|diff|={abs(H1 - hm):.3g} > {tol:.3g}); XX={XXm!r}, largest XX of "
+                        f"the result {float(XXa.max())!r}", {"mode": "hdr-single", "backend": be, "order": o["order"], "scheduler": o["scheduler"], "sub": "single-vs-bin"},
+                     s, be, {"bin": j, "observed": hm, "expected": H1, "tol": tol})
+
+
+def hdr_stream(P: C.Part, ctx, stats: Dict[str, float], intensive: bool, enough) -> None:
+    import time as _t
+    t0 = _t.time()
+    mult = 4 if (intensive or ctx.thorough) else 1
+    wall = 40.0 if mult > 1 else 12.0
+    rot = int(ctx.rng.integers(0, 10 ** 6)) * 80
+    case_seed = int(ctx.rng.integers(0, 2 ** 62))
+    ran = 0
+    plan = [("gain", k) for k in range(16 * mult)] + [("delay", k) for k in range(8 * mult)]
+    # interleave so that a shortened run still sees both modes
+    plan.sort(key=lambda mk: (mk[1] // 2 if mk[0] == "gain" else mk[1], mk[0]))
+    for mode, k in plan:
+        if enough() or _t.time() - t0 > wall or ctx.time_left() < 60:
+            break
+        s = hdr_spec(mode, rot + k, case_seed)
+        P.hit(f"hdr.case.{mode}.{s['hdr']['kind']}")
+        P.hit(f"hdr.case.{s['o']['scheduler']}.order{s['o']['order']}")
+        run_spec(P, s, BACKENDS, None, stats)
+        ran += 1
+        if ran <= 2:
+            P.sample({"op": "oracle-hdr", **short(s), "hdr": s["hdr"]})
+    P.notes.append(f"hdr stream: {ran} of {len(plan)} cases, {_t.time() - t0:.1f} s")
 
 
 # ---------------------------------------------------------------- (5) size thresholds
@@ -994,6 +1234,8 @@ def _oracle(ctx, intensive: bool = False, hints: List[Dict[str, Any]] = ()) -> C
     # 0. corpus (D1) — both backends, compute and compute_single_bin
     for s in corpus_specs():
         run_spec(P, s, BACKENDS, None, stats)
+    # 6. huge spectral dynamic range (own short time share; runs on every run)
+    hdr_stream(P, ctx, stats, intensive, enough)
     # 5. size thresholds (own time share, before the clock of the other streams starts: it must run on every run)
     size_stream(P, ctx, stats, intensive, enough)
     budget = min(ctx.time_left() - 15, (600.0 if ctx.thorough else 80.0) * (2 if intensive else 1))
